@@ -58,12 +58,11 @@ def ctxBlocksL (bound : List String) : List Block → List (Block × List String
   | b :: rest => ctxBlocks bound b ++ ctxBlocksL bound rest
 end
 
-/-- The top-level function's `nonlocal` declarations are not checked (it may itself be nested in code the
-    tree does not show); those of all blocks below are. -/
+/-- Every `nonlocal` declaration of the tree has a binding in an enclosing function of the tree (in particular
+    the top-level function declares none: what encloses it is not part of the tree). -/
 def nonlocalsResolve (t : Stmt) : Bool :=
   match blockOf t with
-  | some (.mk _ kind _ params binds globals nonlocals _ _ children) =>
-      nlOkBs (visibleIn kind params binds globals nonlocals []) children
+  | some b => nlOkB [] b
   | none => true
 
 end Malt.Spec
